@@ -9,16 +9,67 @@ Local Open Scope Z_scope.
 Inductive entry := E (c : Z) (o : order).
 Definition ekey (e : entry) : Z := match e with E c _ => c end.
 
+(** a step of a case: an input of the model, or a persist / restore of the state (the harness
+    serialises the [Orders] to JSON, deserialises them back and continues with the restored
+    value; [same] = restored == original as decided by the implementation's own PartialEq).
+    The model treats it as a no-op. *)
+Inductive xop := XOp (o : op) | XPersist (same : bool).
+Inductive xeop := XE (x : eop) | XEPersist (same : bool).
+
 Inductive case :=
-| COrders (init : list entry) (ops : list op) (obs : list (list entry))
+| COrders (init : list entry) (xs : list xop) (obs : list (list entry))
     (* [Orders(init)] ; every op applied through OrderManager / InFlightRequestRecorder ;
-       [obs] = the whole map after each op *)
-| CEngine (ninst : N) (xs : list eop) (obs : list (list (list entry)))
+       [obs] = the whole map after each step *)
+| CEngine (ninst : N) (xs : list xeop) (obs : list (list (list entry)))
     (* an [EngineState] with [ninst] instruments built by the public builder ; every input
        applied through EngineState::update_from_account / InFlightRequestRecorder for
-       EngineState ; [obs] = after each input, every instrument's map (by instrument index) *)
+       EngineState ; [obs] = after each step, every instrument's map (by instrument index) *)
 | CPanic
     (* the implementation panicked on an input of the property's domain *).
+
+Definition entry_eqb (a b : entry) : bool :=
+  match a, b with E c o, E c' o' => Z.eqb c c' && order_eqb o o' end.
+
+(** model semantics of a step list *)
+Definition xstep (s : orders) (x : xop) : orders :=
+  match x with XOp o => step s o | XPersist _ => s end.
+Definition ops_of (xs : list xop) : list op :=
+  flat_map (fun x => match x with XOp o => [o] | XPersist _ => [] end) xs.
+Definition xestep (e : estate) (x : xeop) : estate :=
+  match x with XE y => estep e y | XEPersist _ => e end.
+Definition eops_of (xs : list xeop) : list eop :=
+  flat_map (fun x => match x with XE y => [y] | XEPersist _ => [] end) xs.
+
+(** check the persist steps (the round trip reported no difference and the observed maps are
+    exactly the previous ones) and drop them: what is left is judged as before.  [None] = a
+    persist / restore changed the state (or the case is malformed). *)
+Fixpoint strip_orders (prev : list entry) (xs : list xop) (obs : list (list entry))
+  : option (list op * list (list entry)) :=
+  match xs, obs with
+  | [], [] => Some ([], [])
+  | XOp o :: xs', cur :: obs' =>
+      match strip_orders cur xs' obs' with
+      | Some (ops, os) => Some (o :: ops, cur :: os)
+      | None => None
+      end
+  | XPersist same :: xs', cur :: obs' =>
+      if same && list_eqb entry_eqb prev cur then strip_orders prev xs' obs' else None
+  | _, _ => None
+  end.
+
+Fixpoint strip_engine (prev : list (list entry)) (xs : list xeop) (obs : list (list (list entry)))
+  : option (list eop * list (list (list entry))) :=
+  match xs, obs with
+  | [], [] => Some ([], [])
+  | XE x :: xs', cur :: obs' =>
+      match strip_engine cur xs' obs' with
+      | Some (ys, os) => Some (x :: ys, cur :: os)
+      | None => None
+      end
+  | XEPersist same :: xs', cur :: obs' =>
+      if same && list_eqb (list_eqb entry_eqb) prev cur then strip_engine prev xs' obs' else None
+  | _, _ => None
+  end.
 
 Fixpoint lookup (l : list entry) (c : Z) : option order :=
   match l with
@@ -50,12 +101,8 @@ Definition snap_cids (l : list isnap) : list Z :=
 Definition eop_cids (x : eop) : list Z :=
   match x with EOrd o => [cid_of o] | EAcctSnapshot l => snap_cids l end.
 
-Definition universe (c : case) : list Z :=
-  match c with
-  | COrders init ops _ => map ekey init ++ map cid_of ops
-  | CEngine _ xs _ => flat_map eop_cids xs
-  | CPanic => []
-  end.
+Definition u_orders (init : list entry) (ops : list op) : list Z := map ekey init ++ map cid_of ops.
+Definition u_engine (xs : list eop) : list Z := flat_map eop_cids xs.
 
 (* ---- model = implementation ----------------------------------------------------------------- *)
 
@@ -84,9 +131,17 @@ Fixpoint ecorr_run (n : N) (U : list Z) (e : estate) (xs : list eop)
 
 Definition corr_b (c : case) : bool :=
   match c with
-  | COrders init ops obs =>
-      strictly_sorted init && corr_run (universe c) (of_entries init) ops obs
-  | CEngine n xs obs => ecorr_run n (universe c) eempty xs obs
+  | COrders init xs obs =>
+      match strip_orders init xs obs with
+      | Some (ops, os) =>
+          strictly_sorted init && corr_run (u_orders init ops) (of_entries init) ops os
+      | None => false
+      end
+  | CEngine n xs obs =>
+      match strip_engine (repeat [] (N.to_nat n)) xs obs with
+      | Some (ys, os) => ecorr_run n (u_engine ys) eempty ys os
+      | None => false
+      end
   | CPanic => false
   end.
 
@@ -109,9 +164,6 @@ Fixpoint prop_run (U : list Z) (prev : list entry) (ops : list op) (obs : list (
   | o :: ops', cur :: obs' => step_ok U prev cur o && prop_run U cur ops' obs'
   | _, _ => false
   end.
-
-Definition entry_eqb (a b : entry) : bool :=
-  match a, b with E c o, E c' o' => Z.eqb c c' && order_eqb o o' end.
 
 (** the order reports a full account snapshot carries for instrument [i], in the order listed *)
 Definition reports_of (i : Z) (l : list isnap) : list osnap :=
@@ -147,10 +199,19 @@ Fixpoint eprop_run (U : list Z) (prevs : list (list entry)) (xs : list eop)
   | _, _ => false
   end.
 
+(** a persist / restore that changes the tracked orders breaks the property outright *)
 Definition prop_b (c : case) : bool :=
   match c with
-  | COrders init ops obs => prop_run (universe c) init ops obs
-  | CEngine n xs obs => eprop_run (universe c) (repeat [] (N.to_nat n)) xs obs
+  | COrders init xs obs =>
+      match strip_orders init xs obs with
+      | Some (ops, os) => prop_run (u_orders init ops) init ops os
+      | None => false
+      end
+  | CEngine n xs obs =>
+      match strip_engine (repeat [] (N.to_nat n)) xs obs with
+      | Some (ys, os) => eprop_run (u_engine ys) (repeat [] (N.to_nat n)) ys os
+      | None => false
+      end
   | CPanic => false
   end.
 
